@@ -52,6 +52,10 @@ def case_stream(tier, seed, salt, n_prog, n_list, bool_only=False):
         if bool_only:
             c["list"] = [x for x in c["list"] if not x[0].startswith("_ret")] + [["_ret", [x for x in c["list"] if x[0].startswith("_ret")][0][1]]]
         yield dict(c, kind="list", profile="default" if i % 2 else "fast", evaluate=rng.random() < 0.8, origin=origin)
+    if tier == "thorough":
+        # small scope, exhaustive: every tree of depth <= 2 over a, b, c (and/or/xor with negated literals), both profiles
+        for k, e in enumerate(G.enum_small()):
+            yield {"kind": "list", "inputs": ["a", "b", "c"], "list": [["_ret", e]], "profile": "fast" if k % 2 else "default", "evaluate": True, "origin": "enum"}
 
 
 CORPUS_LISTS = [
